@@ -1,8 +1,14 @@
 mod c12;
+mod c22s;
 mod c51;
 mod sched;
 use vkit::{Check, Level};
 fn main() {
+    // helper mode for vcrash's C22 (thread schedules of gix-lock): one scenario per process
+    let args: Vec<String> = std::env::args().collect();
+    if args.get(1).map(String::as_str) == Some("--c22-sched") {
+        std::process::exit(c22s::run_child(args.get(2).map_or("", String::as_str)));
+    }
     vkit::main(&[
         Check { id: "C51", level: Level::ModelChecking, run: c51::run },
         Check { id: "C12", level: Level::ModelChecking, run: c12::run },
